@@ -94,7 +94,8 @@ func (e Env) Second(a, b interface{}) interface{} {
 	e.L.Add("Second(%v,%v)", Norm(a), Norm(b))
 	return b
 }
-func (e Env) Boom(i int) int { e.L.Add("Boom(%d)", i); panic("boom") }
+func (e Env) MkArr(n int) []int { e.L.Add("MkArr(%d)", n); return make([]int, n) }
+func (e Env) Boom(i int) int    { e.L.Add("Boom(%d)", i); panic("boom") }
 
 // Domain of one member: constructors taking the run's log.
 type Domain []func(l *Log) interface{}
